@@ -37,6 +37,10 @@ type PtrV struct {
 	Obj  *Object
 	Path []PE
 	Nil  *Term
+	// AltC != nil: the pointer depends on the path (AltC ? AltA : AltB) and the
+	// two designate different locations; no other field is used then
+	AltC       *Term
+	AltA, AltB *PtrV
 }
 
 // IfaceV is an interface value.  Exactly one of the following shapes:
@@ -432,6 +436,9 @@ func (x *Exec) iteV(c *Term, a, bb Value) Value {
 		return r
 	case *PtrV:
 		q := bb.(*PtrV)
+		if p.AltC != nil || q.AltC != nil {
+			return &PtrV{AltC: c, AltA: p, AltB: q}
+		}
 		pn, qn := x.ptrNil(p), x.ptrNil(q)
 		if p.Obj == nil && q.Obj == nil {
 			return p
@@ -443,7 +450,9 @@ func (x *Exec) iteV(c *Term, a, bb Value) Value {
 			return &PtrV{Obj: p.Obj, Path: p.Path, Nil: b.Ite(c, pn, qn)}
 		}
 		if p.Obj != q.Obj || !samePath(p.Path, q.Path) {
-			unsupported("merge of different pointers (%s vs %s)", p.Obj.name, q.Obj.name)
+			// different locations (a register selected by opcode bits …): kept
+			// apart, every load and store splits on the condition
+			return &PtrV{AltC: c, AltA: p, AltB: q}
 		}
 		return &PtrV{Obj: p.Obj, Path: p.Path, Nil: b.Ite(c, pn, qn)}
 	case *IfaceV:
@@ -562,6 +571,9 @@ func samePath(a, b []PE) bool {
 }
 
 func (x *Exec) ptrNil(p *PtrV) *Term {
+	if p.AltC != nil {
+		return x.b.Ite(p.AltC, x.ptrNil(p.AltA), x.ptrNil(p.AltB))
+	}
 	if p.Obj == nil {
 		return x.b.True()
 	}
@@ -600,13 +612,31 @@ func (x *Exec) adaptIdx(arr *Term, idx *Term) *Term {
 	return x.b.ZExt(iw, idx)
 }
 
+// selArrV reads an element of a Go-side vector (array of structs, functions,
+// interfaces …); a symbolic index selects among all elements (a dispatch table
+// indexed by the opcode).
+func (x *Exec) selArrV(av *ArrV, idx *Term) Value {
+	if isC(idx) {
+		if idx.Val >= uint64(len(av.E)) {
+			unsupported("index %d outside an array of %d non-scalar elements", idx.Val, len(av.E))
+		}
+		return av.E[idx.Val]
+	}
+	n := len(av.E)
+	if n == 0 || n > 1024 {
+		unsupported("symbolic index into an array of %d non-scalar elements", n)
+	}
+	r := av.E[n-1]
+	for k := n - 2; k >= 0; k-- {
+		r = x.iteV(x.b.Eq(idx, x.b.Const(idx.S.W, uint64(k))), av.E[k], r)
+	}
+	return r
+}
+
 func (x *Exec) getPath(v Value, p []PE) Value {
 	for _, e := range p {
 		if av, ok := v.(*ArrV); ok && e.Index != nil {
-			if !isC(e.Index) || e.Index.Val >= uint64(len(av.E)) {
-				unsupported("symbolic index into an array of non-scalar elements")
-			}
-			v = av.E[e.Index.Val]
+			v = x.selArrV(av, e.Index)
 			continue
 		}
 		if e.Index != nil {
